@@ -21,6 +21,27 @@ META = {
                 note=PROOF_NOTE + " Preconditions: default improvement policy, poll_mesh_multiplier = 2, search_grid_multiplier = 2, "
                      "max_poll_grid_number = 0, search_mesh_expand = 0, search_grid_number >= 0. 2^k is the uninterpreted power function pw(2,k) with "
                      "ground monotonicity/step axioms."),
+    "C10": dict(level="proof",
+                text="Exceptional postconditions: FunctionLogger.__call__ lets the target's own exception escape (bare re-raise, no conversion), counts and logs "
+                     "nothing for a failed or invalid call, makes exactly one target call; every BADS method that reaches the logger (initial design, noise test, "
+                     "search, poll, final re-sampling) is verified with first-class exceptions so that a handler around a target call, a second call after a "
+                     "failure, or a dishonest count fails a named obligation - for every call position k, not a sample of them.",
+                note=PROOF_NOTE + " The user target is modelled as arbitrary code (any value, may raise) counted by ghost n_calls. The clause about which returned "
+                     "VALUE kinds (NaN, inf, complex, vector, None, bad SD) are rejected is only partly covered: see evidence 'explanation'."),
+    "C12": dict(level="proof",
+                text="The evaluation log as a data structure against an abstract view: well-formedness invariant, new-record / no-record / growth clauses stated over the "
+                     "whole view (every other row of every array unchanged), discharged for all log states and arguments.",
+                note=PROOF_NOTE + " Rows beyond Xn being NaN and the specified-noise merge arithmetic are not yet part of the proved clauses (merge: see known findings / DESIGN)."),
+    "C17": dict(level="proof",
+                text="Postconditions of the candidate filter for all candidate arrays, boxes, tolerances and logs: inside the box it was filtered against, feasible, "
+                     "pairwise distinct. The 'not already evaluated' clause is a recorded known finding (the code keeps evaluated points; pinned by an existing test).",
+                note=PROOF_NOTE + " non_box_cons is assumed to be a deterministic row-wise function (T5). np.unique/np.sort/boolean-mask selection are trusted primitive models."),
+    "C01": dict(level="proof",
+                text="Clamp postconditions of both transform directions for every finite input; the target is called only on inverse_transf(x)[0] (single call site, "
+                     "coverage scan), the candidate filter hands only inverse_transf images to non_box_cons, and the returned x is an inverse_transf image: all inside "
+                     "the original hard box for every run.",
+                note=PROOF_NOTE + " Assumes g/ginv map finite input to finite output (checked for the lambda bodies under C11). The internal-coordinate clause "
+                     "(logged u inside the transformed box) is not yet claimed."),
     "C06": dict(not_applicable="population-level convergence quality of a numerical optimiser (success rate over random quadratics): no function-level "
                                "contract expresses a rate and GP regression numerics are outside any solver here; see DESIGN.md section 7/C06"),
 }
